@@ -6,6 +6,7 @@ import (
 	"encoding/hex"
 	"encoding/json"
 	"fmt"
+	epb "github.com/google/gce-tcb-verifier/proto/endorsement"
 	"math/rand"
 	"sort"
 	"strings"
@@ -142,8 +143,12 @@ func buildTdxImage(r layRow, seed int64) ([]byte, []*oabi.TDXMetadataSection, er
 	memFV, nTemp := uint64(0xffc00000), uint64(0)
 	for i, s := range r.Secs {
 		ms := &oabi.TDXMetadataSection{SectionType: s.Ty}
+		// the extend flag is bit 0 of the attributes; the other bits do not matter to the measurement, so
+		// flagged and unflagged sections also carry other bits (seeded)
+		other := []uint32{0, 0, 2, 0x80000000}[uint64(seed+int64(i)*7)%4]
+		ms.Attributes = other
 		if s.Ext {
-			ms.Attributes = oabi.TDXMetadataAttributeExtendMR
+			ms.Attributes |= oabi.TDXMetadataAttributeExtendMR
 		}
 		switch s.Ty {
 		case 0, 1:
@@ -353,7 +358,7 @@ func RunC05(run *vk.Run) {
 		stride = 6
 	}
 	rp.Parallel(len(lay.Cases), func(i int) {
-		if (i+int(run.Seed))%stride != 0 {
+		if !vk.Pick(i, run.Seed, stride) {
 			return
 		}
 		var r layRow
@@ -474,6 +479,78 @@ func RunC05(run *vk.Run) {
 				run.Violation("mrtd-differs", fmt.Sprintf("2 MiB example on %s in mode %s: MRTD differs from the definition (%v / %v)", shape, mode, werr, gerr), nil)
 			}
 			run.Case("shape:"+shape+":"+mode, true)
+		}
+	}
+	// part 4: the endorsement path (tdx.UnsignedTDX): one request over several machine shapes, with
+	// and without the early-accept entries; every entry must be the MRTD of its own shape and mode
+	var shapeNames []string
+	for name := range shapes.Shapes {
+		shapeNames = append(shapeNames, strings.ReplaceAll(name, "_", "-"))
+	}
+	sort.Strings(shapeNames)
+	if len(shapeNames) >= 3 {
+		lists := [][]string{shapeNames[:3], {shapeNames[len(shapeNames)-1], shapeNames[0], shapeNames[len(shapeNames)/2]}}
+		if !run.IsQuick() {
+			lists = append(lists, shapeNames)
+		}
+		for _, list := range lists {
+			for _, ea := range []bool{false, true} {
+				var vm *epb.VMTdx
+				var uerr error
+				func() {
+					defer func() {
+						if p := recover(); p != nil {
+							uerr = fmt.Errorf("PANIC: %v", p)
+						}
+					}()
+					vm, uerr = tdx.UnsignedTDX(img, &tdx.EndorsementRequest{MachineShapes: list, IncludeEarlyAccept: ea})
+				}()
+				if uerr != nil {
+					run.Violation("endorsement-fails", fmt.Sprintf("tdx.UnsignedTDX(shapes %v, early accept %v) fails: %v", list, ea, uerr), nil)
+					continue
+				}
+				type want struct {
+					what string
+					ea   bool
+					mrtd []byte
+				}
+				var wants []want
+				for _, shape := range list {
+					banks := tdx.LaunchOptionsDefaultTDHOBBug(shape).GuestRAMBanks
+					m, _, werr := expectedMrtd(e, img, exSecs, "measure_all", banks)
+					if werr != nil {
+						run.Infra(werr)
+						return
+					}
+					wants = append(wants, want{shape + " legacy", false, m})
+					if ea {
+						m2, _, werr := expectedMrtd(e, img, exSecs, "measure_all_ea", banks)
+						if werr != nil {
+							run.Infra(werr)
+							return
+						}
+						wants = append(wants, want{shape + " legacy early-accept", true, m2})
+					}
+				}
+				md, _, werr := expectedMrtd(e, img, exSecs, "default", nil)
+				if werr != nil {
+					run.Infra(werr)
+					return
+				}
+				wants = append(wants, want{"default", false, md})
+				if len(vm.GetMeasurements()) != len(wants) {
+					run.Violation("endorsement-entries", fmt.Sprintf("tdx.UnsignedTDX(shapes %v, early accept %v) lists %d measurements, the request implies %d", list, ea, len(vm.GetMeasurements()), len(wants)), nil)
+					continue
+				}
+				for k, w := range wants {
+					g := vm.GetMeasurements()[k]
+					if g.GetEarlyAccept() != w.ea || !bytes.Equal(g.GetMrtd(), w.mrtd) {
+						run.Violation("mrtd-differs:endorsement", fmt.Sprintf("tdx.UnsignedTDX(shapes %v, early accept %v): entry %d (%s) is not the MRTD of the definition for that shape and mode", list, ea, k, w.what), map[string]any{"shapes": list, "early_accept": ea, "entry": k})
+						break
+					}
+					run.Case(fmt.Sprintf("unsignedtdx:%v:%v:%d", list, ea, k), true)
+				}
+			}
 		}
 	}
 	run.Exhaustive = !run.IsQuick()
